@@ -32,7 +32,9 @@ fn set_len(b: &mut [u8], n: usize) {
 /// append MESSAGE-INTEGRITY (sha1) or MESSAGE-INTEGRITY-SHA256 (optionally truncated) computed per RFC 8489 14.5/14.6
 pub fn seal(mut bytes: Vec<u8>, key: &[u8], sha256: bool, trunc: usize) -> Vec<u8> {
     let mac_len = if sha256 { trunc } else { 20 };
-    let new_body = bytes.len() - 20 + 4 + mac_len;
+    // (illegal lengths that are not a multiple of 4 are still padded so that the message stays a sequence of TLVs)
+    let padded = (mac_len + 3) / 4 * 4;
+    let new_body = bytes.len() - 20 + 4 + padded;
     set_len(&mut bytes, new_body);
     let mac: Vec<u8> = if sha256 {
         let mut h = Hmac::<sha2::Sha256>::new_from_slice(key).unwrap();
@@ -51,6 +53,7 @@ pub fn seal(mut bytes: Vec<u8>, key: &[u8], sha256: bool, trunc: usize) -> Vec<u
     bytes.extend_from_slice(&ty.to_be_bytes());
     bytes.extend_from_slice(&(mac_len as u16).to_be_bytes());
     bytes.extend_from_slice(&mac);
+    bytes.resize(bytes.len() + padded - mac_len, 0);
     bytes
 }
 
